@@ -492,7 +492,7 @@ func (e *exec) xrPoint(label string, enumerate bool) {
 			probe := e.fork()
 			calls := probe.fetch(x, 0, sim.OK, label+" probe")
 			for k := 0; k < calls; k++ {
-				for _, out := range sim.AllFaults {
+				for _, out := range sim.EnumFaults {
 					f := e.fork()
 					f.fetch(x, k, out, fmt.Sprintf("%s fault %s@%d", label, out, k))
 					f.fetch(x, 0, sim.OK, fmt.Sprintf("%s retry after %s@%d", label, out, k))
@@ -630,7 +630,7 @@ func runHistory(c *kit.Ctx, coll *collector, h history, idx int) {
 	// fault enumeration: every reconcile x every call index x six outcomes
 	for sni, sn := range snaps {
 		for k := 0; k < sn.calls; k++ {
-			for _, out := range sim.AllFaults {
+			for _, out := range sim.EnumFaults {
 				caseName := fmt.Sprintf("%s/r%d/k%d/%s", h.Name, sni, k, out)
 				if !c.Want(caseName) {
 					continue
